@@ -149,6 +149,9 @@ func zeroLeaf(t types.Type) Value {
 			return Ptr{}
 		}
 		if isFloat(t) {
+			if u.Kind() == types.Float64 || u.Kind() == types.UntypedFloat {
+				return FloatV{T: BVu(0, 64)}
+			}
 			return FloatV{}
 		}
 		if u.Kind() == types.UntypedNil || u.Kind() == types.Invalid {
@@ -173,8 +176,9 @@ func zeroLeaf(t types.Type) Value {
 	panic(fmt.Sprintf("zeroLeaf: unsupported type %T %v", t.Underlying(), t))
 }
 
-// FloatV is an opaque placeholder: floats are not supported; any arithmetic on one aborts the path.
-type FloatV struct{}
+// FloatV is a float64 value carried as its IEEE-754 bit pattern (T, 64 bits). T == nil is an opaque placeholder
+// (float32, complex): any arithmetic on one aborts the path as unsupported.
+type FloatV struct{ T *Term }
 
 func appendZero(out []Value, t types.Type) []Value {
 	switch u := t.Underlying().(type) {
@@ -251,8 +255,8 @@ func sameValue(a, b Value) bool {
 		y, ok := b.(IterV)
 		return ok && x == y
 	case FloatV:
-		_, ok := b.(FloatV)
-		return ok
+		y, ok := b.(FloatV)
+		return ok && x.T == y.T
 	case Iface:
 		y, ok := b.(Iface)
 		if !ok {
